@@ -8,7 +8,13 @@ use std::sync::atomic::{AtomicBool, AtomicU64, Ordering};
 use std::sync::{Mutex, Once};
 use std::time::Instant;
 
-#[derive(Clone, Copy, PartialEq, Eq, Debug)]
+/// sanitizer / interpreter legs: a handful of very small cases (value = how many)
+pub static TINY: std::sync::atomic::AtomicU64 = std::sync::atomic::AtomicU64::new(0);
+pub fn tiny() -> u64 {
+    TINY.load(std::sync::atomic::Ordering::Relaxed)
+}
+
+#[derive(Clone, Copy, Debug, PartialEq, Eq)]
 pub enum Tier {
     Quick,
     Thorough,
